@@ -3,6 +3,7 @@ package sim
 import (
 	"encoding/base64"
 	"encoding/json"
+	"unicode/utf8"
 )
 
 // Plan is the unit of simulation and the replay format: a literal list of
@@ -143,27 +144,16 @@ func (o *Op) BodyBytes() []byte {
 // SetBody stores body in the most readable faithful form.
 func (o *Op) SetBody(b []byte) {
 	o.Req, o.Raw, o.RawB64 = nil, nil, ""
+	if !utf8.Valid(b) {
+		o.RawB64 = base64.StdEncoding.EncodeToString(b)
+		return
+	}
 	if json.Valid(b) {
 		o.Req = json.RawMessage(append([]byte{}, b...))
 		return
 	}
-	if isUTF8(b) {
-		s := string(b)
-		o.Raw = &s
-		return
-	}
-	o.RawB64 = base64.StdEncoding.EncodeToString(b)
-}
-
-func isUTF8(b []byte) bool {
 	s := string(b)
-	for _, r := range s {
-		if r == 0xFFFD {
-			return false
-		}
-	}
-	// also reject NUL-free check not needed
-	return true
+	o.Raw = &s
 }
 
 // Violation is one oracle failure.
